@@ -52,7 +52,7 @@ theorem exec_allAccept {ρ : Nat → Reply} (hρ : AllAccept ρ) (ops : List Op)
     | flush ok name => simp [step, intended, flushio, flushLoop_delivered]
     | next ok name => simp [step, intended, nextioWrite_delivered]
     | close name opt => simp [step, intended, closeio_delivered]
-    | read ik name => simp [step, intended, readio_delivered]
+    | read ik name fuel => simp [step, intended, readio_delivered]
     | flushall => simp [step, intended, flushall, flushallLoop_delivered]
 
 /-- **(a)** If the handler never fails and never reports end of stream — but accepts as few characters per
@@ -66,7 +66,7 @@ theorem write_exactly_once_in_order {ρ : Nat → Reply} (hρ : AllAccept ρ) (o
 /-- **(a), language level.** Under such a handler a program delivers, per stream key, exactly the text of
 the `print` (items joined by OFS, then ORS) and `printf` statements it executed, in program order: `n` is the
 number of statements executed (all of them unless a run error — e.g. `nextofile` without console output, or the
-`printf >> f` after `print > f` flush mismatch — aborted the program).  Flushing at the end of the run and
+`printf >> f` after `print > f` flush mismatch — aborted the program, or `Cfg.readFuel` is too small for a getline).  Flushing at the end of the run and
 closing at teardown add nothing. -/
 theorem program_delivers_exactly_once_in_order {ρ : Nat → Reply} (hρ : AllAccept ρ) (cfg : Cfg) (prog : List Stmt) :
     ∃ n, n ≤ prog.length ∧ ((runProgram ρ cfg prog).2 = false → n = prog.length) ∧
@@ -114,7 +114,7 @@ theorem acked_writes_fully_delivered (ρ : Nat → Reply) (ops : List Op) (s : S
     | flush ok name => exact ⟨ds, by simpa [writesTo] using hf, by rw [hd]; simp [step, flushio, flushLoop_delivered]⟩
     | next ok name => exact ⟨ds, by simpa [writesTo] using hf, by rw [hd]; simp [step, nextioWrite_delivered]⟩
     | close name opt => exact ⟨ds, by simpa [writesTo] using hf, by rw [hd]; simp [step, closeio_delivered]⟩
-    | read ik name => exact ⟨ds, by simpa [writesTo] using hf, by rw [hd]; simp [step, readio_delivered]⟩
+    | read ik name fuel => exact ⟨ds, by simpa [writesTo] using hf, by rw [hd]; simp [step, readio_delivered]⟩
     | flushall => exact ⟨ds, by simpa [writesTo] using hf, by rw [hd]; simp [step, flushall, flushallLoop_delivered]⟩
 
 /-- **(b)** A handler failure (of OPEN or of any WRITE) during a write makes the write return -1. -/
@@ -267,7 +267,45 @@ theorem flushed_at_return (ρ : Nat → Reply) (cfg : Cfg) (prog : List Stmt) :
   rw [this.1] at hx
   exact this.2 x hx
 
+/-! ## the console read loop (getline at the end of a console stream asks the handler for the NEXT stream)
+
+A handler that answers READ→0, NEXT→1, READ→0, NEXT→1, … keeps `hawk_rtx_readio` in its loop forever.  The model
+bounds the loop by `fuel` (`Op.read … fuel`, `Cfg.readFuel`); running out yields the result `-2` / `SRes.hang` =
+"the C has not returned", and `runStmts` stops there (its flag is then `true`).  All theorems above hold for every
+fuel, i.e. also for the prefix of such an endless run (safety: (b), (c), `no_write_after_eof`; the statements about
+`loop`/`runProgram` then describe a return the C never reaches).  The two theorems below say that the fuel is
+nothing but that bound. -/
+
+/-- once a read returns (result ≠ -2), more fuel changes neither the result nor the state nor the log -/
+theorem read_result_independent_of_fuel (ρ : Nat → Reply) (fuel extra : Nat) (s : St) (ik : InKind) (name : String)
+    (h : (readio ρ fuel s ik name).2 ≠ -2) : readio ρ (fuel + extra) s ik name = readio ρ fuel s ik name := by
+  induction extra with
+  | zero => rfl
+  | succ e ih =>
+    rw [← Nat.add_assoc, readio_fuel_mono ρ (fuel + e) s ik name (by rw [ih]; exact h), ih]
+
+/-- running out of fuel means the loop made `fuel` handler calls without ending, none of them failing, and —
+from 2 turns on — only the console can do that (other inputs return 0 at their first EOF) -/
+theorem read_out_of_fuel_is_endless_next (ρ : Nat → Reply) (con : Bool) (sid : Nat) (key : Key) (fuel : Nat) (eof : Bool)
+    (s : St) (h : (readLoop ρ con sid key fuel eof s).2 = -2) :
+    (readLoop ρ con sid key fuel eof s).1.calls = s.calls + fuel ∧ (2 ≤ fuel → con = true) ∧
+    ¬ FailedIn ρ s.calls (readLoop ρ con sid key fuel eof s).1.calls := by
+  refine ⟨(readLoop_hang_calls ρ con sid key fuel eof s h).1, (readLoop_hang_calls ρ con sid key fuel eof s h).2, fun hf => ?_⟩
+  have := (readLoop_fail ρ con sid key fuel eof s).2 hf
+  rw [h] at this
+  exact absurd this (by decide)
+
 /-! ## non-vacuity -/
+
+/-- the console loop really goes round: READ→eof, NEXT→ok, READ→record returns 1 after three calls … -/
+example : (readio (fun i => if i = 1 then .eof else .accept 0) 8 St.init .console "").2 = 1 ∧
+    (readio (fun i => if i = 1 then .eof else .accept 0) 8 St.init .console "").1.calls = 4 := by
+  simp [readio, readRec, readLoop, findKey, St.init, InKind.isConsole]
+
+/-- … and an endless handler exhausts any fuel (here 3) -/
+example : (readio (fun i => if i % 2 = 1 then .eof else .accept 0) 3 St.init .console "").2 = -2 := by
+  simp [readio, readRec, readLoop, findKey, St.init, InKind.isConsole]
+
 
 /-- a handler that takes one character per call satisfies `AllAccept` -/
 example : AllAccept (fun _ => .accept 0) := fun _ => ⟨0, rfl⟩
